@@ -67,8 +67,44 @@ func scenRace(r *Run) {
 	s.Yield = nil
 	s.Invariants = nil
 	netRand := &lockedRand{x: s.Tape.Seed ^ 0xbeef}
+	// Race WITNESS for the shared entropy source. Its critical section ends in
+	// assembly (AES / ChaCha8 block functions) that the race detector does not
+	// instrument, so an unsynchronised use is invisible to the detector; what it
+	// produces is visible on the wire: two different datagrams of the run carrying
+	// the same nonce. Both library sources are keyed generators whose outputs
+	// cannot collide by chance (2^-64 at best), so an identical nonce in front of
+	// DIFFERENT datagram contents proves that two goroutines were inside the
+	// source at once. (Identical contents are not judged: that would be one
+	// datagram written twice.) The table's mutex sits right next to netRand's,
+	// which every emission takes anyway: no happens-before edge is added that the
+	// free-running network did not have already.
+	nonceLen := 0
+	switch {
+	case w.Ref.IsNull():
+	case w.Ref.IsAEAD():
+		nonceLen = w.Ref.HeaderSize()
+	default:
+		nonceLen = 16
+	}
+	var nonceMu sync.Mutex
+	nonceSeen := map[string]uint64{}
+	nonceReported := false
+	nonceCount := 0
 	// the free-running network
 	w.Net.FreeDeliver = func(p *OutPkt) {
+		if nonceLen > 0 && len(p.Data) >= nonceLen {
+			h := fnvBytes(p.Data)
+			k := string(p.Data[:nonceLen])
+			nonceMu.Lock()
+			nonceCount++
+			if prev, dup := nonceSeen[k]; dup && prev != h && !nonceReported {
+				nonceReported = true
+				fmt.Fprintf(os.Stderr, "RACE-WITNESS: nonce-repeat :: two different datagrams of one run carry the same %d-byte nonce %x (cipher %s, datagram #%d of the run, from %s); with a keyed generator as entropy source this takes two goroutines inside it at once\n",
+					nonceLen, p.Data[:nonceLen], w.Cipher, nonceCount, p.Src.addr)
+			}
+			nonceSeen[k] = h
+			nonceMu.Unlock()
+		}
 		if netRand.n(1000) < lossPM {
 			return
 		}
@@ -339,6 +375,9 @@ func scenRace(r *Run) {
 	s.Stats.ProbeN("sessions", len(all))
 	s.Stats.ProbeN("fec-recovered", int(sn.FECRecovered))
 	s.Stats.ProbeN("oob-packets", int(sn.OOBPackets))
+	nonceMu.Lock()
+	s.Stats.ProbeN("nonces-compared", nonceCount)
+	nonceMu.Unlock()
 	if lossPM > 0 {
 		s.Stats.Fault("loss-configured")
 	}
